@@ -33,7 +33,7 @@ def expand(info):
     return out
 
 
-def leaf_values(info, rng, dim, zero, use_mag):
+def leaf_values(info, rng, dim, zero, use_mag, manypd=False):
     """Input data for one leaf: its own parameter dictionary."""
     P = info.parameters
     pars = {}
@@ -58,7 +58,9 @@ def leaf_values(info, rng, dim, zero, use_mag):
         if live:
             pick = rng.choice(live)
             pd = [pick] + [nm for nm in pd if nm != pick]
-    for name in pd[:rng.choice([0, 1, 1, 2])]:
+    # (manypd: two dispersed parameters in every component - each component has its own limit of simultaneous
+    # distributions, the mixture as a whole has none)
+    for name in pd[:(2 if manypd else rng.choice([0, 1, 1, 2]))]:
         rel = P[name].relative_pd
         pars[name + "_pd"] = rng.choice([0.1, 0.25]) if rel else rng.choice([5.0, 15.0])
         pars[name + "_pd_n"] = rng.choice([3, 6])
@@ -156,7 +158,8 @@ def run(sc):
                 k_leaf = leaf_counter[0]
                 leaf_counter[0] += 1
                 lp = leaf_values(node_info, rng, dim, sc.get("zero"),
-                                 "pure-unmagnetised" if (use_mag and k_leaf % 4 == unmag_leaf and k_leaf > 0) else use_mag)
+                                 "pure-unmagnetised" if (use_mag and k_leaf % 4 == unmag_leaf and k_leaf > 0) else use_mag,
+                                 manypd=bool(sc.get("manypd")))
                 ren = dict(zip(own, names))
                 leaf_call = dict(lp, scale=1.0, background=0.0)
                 if use_mag and any(p.name == "up_frac_i" for p in node_info.parameters.call_parameters):
